@@ -373,9 +373,16 @@ def k_c19(spec):
            "codes": sorted(d.hex_rep for d in dev.DeviceType)}
     if spec.get("cls"):
         common = [dt, dev.DeviceState.ON, "aabbcc", "18", "192.168.1.33", "12:A1:A2:1A:BC:1A", "name"]
-        extra = {"SwitcherPowerPlug": [100, 0.5], "SwitcherWaterHeater": [100, 0.5, "00:00:00", "01:00:00"],
-                 "SwitcherThermostat": [dev.ThermostatMode.COOL, 22.5, 24, dev.ThermostatFanLevel.LOW, dev.ThermostatSwing.OFF, "ELEC7022"],
-                 "SwitcherShutter": [50, dev.ShutterDirection.SHUTTER_STOP]}[spec["cls"]]
+        extras = {"SwitcherPowerPlug": [100, 0.5], "SwitcherWaterHeater": [100, 0.5, "00:00:00", "01:00:00"],
+                  "SwitcherThermostat": [dev.ThermostatMode.COOL, 22.5, 24, dev.ThermostatFanLevel.LOW, dev.ThermostatSwing.OFF, "ELEC7022"],
+                  "SwitcherShutter": [50, dev.ShutterDirection.SHUTTER_STOP]}
+        extra = extras[spec["cls"]]
+        if spec.get("before"):
+            b = spec["before"]
+            try:
+                getattr(dev, b["cls"])(*([getattr(dev.DeviceType, b["dtype"])] + common[1:] + extras[b["cls"]]))
+            except Exception:  # noqa: BLE001
+                pass
         try:
             getattr(dev, spec["cls"])(*(common + extra))
             out["constructed"] = True
@@ -417,8 +424,14 @@ def k_datagram(spec):
     out = {}
     with _warnings.catch_warnings(record=True) as ws:
         _warnings.simplefilter("always")
+        for prev in spec.get("before", []):
+            try:
+                bridge._parse_device_from_datagram(lambda dev: None, bytes.fromhex(prev))
+            except Exception:  # noqa: BLE001
+                pass
         try:
-            bridge._parse_device_from_datagram(got.append, data)
+            for _k in range(int(spec.get("repeat", 1))):  # the same datagram arrives `repeat` times; everything made is recorded
+                bridge._parse_device_from_datagram(got.append, data)
             out["exception"] = None
         except Exception as e:  # noqa: BLE001
             out["exception"] = type(e).__name__
@@ -549,6 +562,31 @@ def o_c08(spec, obs):
     frames = [bytes.fromhex(f) for f in obs["frames"]]
     if len(frames) > 1 and frames[1][8:12] != bytes.fromhex(spec["replies"][0])[8:12]:
         return True, "session bytes in the command frame differ from login reply bytes 8..11"
+    return False, "ok"
+
+
+@kind("c08_login")
+def k_c08_login(spec):
+    from aioswitcher.api import messages
+
+    out = {}
+    for r in spec["replies"]:
+        try:
+            o = messages.SwitcherLoginResponse(bytes.fromhex(r))
+            out = {"result": {"session_id": o.session_id, "successful": bool(o.successful)}}
+        except Exception as e:  # noqa: BLE001
+            out = exc_name(e)
+    return out
+
+
+@oracle("C08login")
+def o_c08login(spec, obs):
+    d = bytes.fromhex(spec["replies"][-1])
+    if len(d) < 12:
+        return False, "login reply shorter than 12 bytes (outside C08)"
+    got = (obs.get("result") or {}).get("session_id")
+    if got != d[8:12].hex():
+        return True, "session id %r, login reply bytes 8..11 are %s" % (got if got is not None else obs.get("exception"), d[8:12].hex())
     return False, "ok"
 
 
@@ -946,9 +984,12 @@ def k_bridge_seq(spec):
             model_ports.append(step[1])
     # configured ports in model order: the harness uses a fixed list, map by position
     cfg = spec.get("model_ports") or sorted(set(model_ports)) or []
-    steps_out = []
 
-    async def go():
+    async def go(tight):
+        """tight=None: after every action the loop settles (deliveries done) before the next one.  tight=k: a broadcast is
+        followed by exactly k bare loop cycles and the next action starts at once - the schedules in which a delivery that the
+        bridge has deferred (call_soon, a task) is still pending when stop() is called"""
+        steps_out = []
         log = []
         br = SwitcherBridge(lambda dev: log.append(dev), list(real_ports))
         other = SwitcherBridge(lambda dev: None, list(real_ports))
@@ -965,10 +1006,12 @@ def k_bridge_seq(spec):
             mapping[p] = real_ports[i]
         client = _socket.socket(_socket.AF_INET, _socket.SOCK_DGRAM)
         owned = set()
-        for kindn, port, _exc in spec["trace"]:
+        trace = spec["trace"]
+        for idx, (kindn, port, _exc) in enumerate(trace):
             o = {"action": kindn, "port": port, "raised": None}
             before_owned = set(owned)
             nlog = len(log)
+            hurry = False
             try:
                 if kindn == "start":
                     await br.start()
@@ -980,7 +1023,12 @@ def k_bridge_seq(spec):
                     await br.__aexit__(None, None, None)
                 elif kindn == "send":
                     client.sendto(_type1_datagram(), ("127.0.0.1", real(port)))
-                    await asyncio.sleep(0.05)
+                    if tight is not None and idx + 1 < len(trace) and trace[idx + 1][0] in ("stop", "exit"):
+                        hurry = True
+                        for _ in range(tight):
+                            await asyncio.sleep(0)
+                    else:
+                        await asyncio.sleep(0.05)
                 elif kindn == "occupy":
                     s = _socket.socket(_socket.AF_INET, _socket.SOCK_DGRAM)
                     s.bind(("0.0.0.0", real(port)))
@@ -993,8 +1041,17 @@ def k_bridge_seq(spec):
                     await other.stop()
             except Exception as e:  # noqa: BLE001
                 o["raised"] = type(e).__name__
+            o["callbacks_during"] = len(log) - nlog
+            if hurry:
+                o["hurried"] = True
+                o["callbacks"] = len(log) - nlog
+                o["bridge_listening"] = sorted(real_ports.index(p) for p in owned)
+                o["new_listening"] = []
+                o["is_running"] = br.is_running
+                steps_out.append(o)
+                continue
             await asyncio.sleep(0)
-            await asyncio.sleep(0.01)
+            await asyncio.sleep(0.01 if tight is None else 0.05)
             # which configured ports are held by the bridge now: not bindable and not held by an outsider
             held_by_outsider = {real(p) for p in outsiders}
             owned = {p for p in real_ports if p not in held_by_outsider and not _bindable(p)}
@@ -1002,19 +1059,45 @@ def k_bridge_seq(spec):
             o["new_listening"] = sorted(real_ports.index(p) for p in owned - before_owned)
             o["is_running"] = br.is_running
             o["callbacks"] = len(log) - nlog
+            o["callbacks_after_return"] = o["callbacks"] - o["callbacks_during"]
             steps_out.append(o)
         client.close()
         for s in outsiders.values():
             s.close()
         await br.stop()
+        return steps_out
 
-    asyncio.run(go())
-    return {"steps": steps_out, "nports": n}
+    trace = spec["trace"]
+    hurried = any(a[0] == "send" and i + 1 < len(trace) and trace[i + 1][0] in ("stop", "exit") for i, a in enumerate(trace))
+    out = {"steps": asyncio.run(go(None)), "nports": n}
+    if hurried:
+        out["tight"] = {}
+        for k in range(0, 6):
+            real_ports = _free_udp_ports(n)
+            out["tight"][str(k)] = asyncio.run(go(k))
+    return out
+
+
+def _c17_callbacks(steps):
+    """callbacks that reach the user although the bridge is not listening: after stop has returned, or for a port it does not hold"""
+    listening = set()
+    for o in steps:
+        k = o["action"]
+        if k in ("stop", "exit") and o.get("callbacks_after_return", 0) > 0:
+            return "%d callback(s) after %s had returned" % (o["callbacks_after_return"], k)
+        if k not in ("start", "enter", "stop", "exit") and not listening and o.get("callbacks", 0) > 0:
+            return "%d callback(s) during '%s' while the bridge was not listening" % (o["callbacks"], k)
+        listening = set(o["bridge_listening"])
+    return None
 
 
 @oracle("C17")
 def o_c17(spec, obs):
     n = obs["nports"]
+    for name, steps in [("settled", obs["steps"])] + [("%s bare loop cycles after the broadcast" % k, st) for k, st in obs.get("tight", {}).items()]:
+        why = _c17_callbacks(steps)
+        if why:
+            return True, "%s (schedule: %s)" % (why, name)
     listening = set()
     for o in obs["steps"]:
         k = o["action"]
